@@ -19,7 +19,8 @@ PROP = "C19"
 LEVEL = "exploration"
 RULE = ("seq: random resource (size k*c+{-1,0,1}, 1 byte, <1 chunk), chunk size, capacity and "
         "a sequence of <=300 seek/tell/read ops on the real HTTPFile over a fake requests "
-        "session; non-trivial = sequence with >=1 cache eviction and >=1 read spanning >=2 "
+        "session (every third case: 2-3 file objects with their own chunk size / capacity on the "
+        "same resource, operations interleaved); non-trivial = sequence with >=1 cache eviction and >=1 read spanning >=2 "
         "chunks, distinct by hash of (size, chunk, capacity, ops). e2e: generated .rtdc file "
         "served over loopback HTTP; non-trivial = file larger than 3 chunks with evictions")
 ASSUMPTIONS = [
@@ -145,38 +146,33 @@ def gen_ops(rng, size, cs, n_ops):
     return ops
 
 
-def run_seq(ctx, idx):
-    from dclab import http_utils
-    from vmon.httpsrv import FakeSession
-    rng = ctx.rng(idx)
-    cs = int(rng.choice(CHUNKS))
-    if cs >= 4096:
-        k = int(rng.integers(0, 4))
-    else:
-        k = int(rng.integers(0, 12))
-    shape = rng.random()
-    if shape < 0.1:
-        size = 1
-    elif shape < 0.2:
-        size = max(1, int(rng.integers(1, cs + 1)) - 1) or 1
-    else:
-        size = max(1, k * cs + int(rng.integers(-1, 2)))
-    keep = int(rng.choice(KEEPS))
-    blob = rng.bytes(size)
-    url = f"http://fake.invalid/res{idx}.bin"
-    n_ops = int(rng.integers(5, 300 if ctx.tier == "thorough" else 120))
-    ops = gen_ops(rng, size, cs, n_ops)
-    hf = http_utils.HTTPFile(url, chunk_size=cs, keep_chunks=keep)
-    ses = FakeSession({url: blob})
-    hf.session = ses
-    mpos = 0
-    evictions = 0
-    spanning = 0
-    desc = {"size": size, "chunk_size": cs, "keep_chunks": keep}
-    hist = []
-    for op in ops:
+class _Reader:
+    """One real HTTPFile with its BytesIO-style model position."""
+
+    def __init__(self, ctx, url, blob, ses, cs, keep, ops, tag):
+        from dclab import http_utils
+        self.ctx, self.blob, self.size, self.cs, self.keep = ctx, blob, len(blob), cs, keep
+        self.ops = list(ops)
+        self.hf = http_utils.HTTPFile(url, chunk_size=cs, keep_chunks=keep)
+        self.hf.session = ses
+        self.mpos = 0
+        self.evictions = 0
+        self.spanning = 0
+        self.hist = []
+        self.desc = {"size": self.size, "chunk_size": cs, "keep_chunks": keep, "reader": tag}
+        self.dead = False
+
+    def step(self, extra):
+        """Apply the next operation; -> False when this reader is finished."""
+        if self.dead or not self.ops:
+            return False
+        ctx, hf, size, cs, blob = self.ctx, self.hf, self.size, self.cs, self.blob
+        op = self.ops.pop(0)
+        hist = self.hist
+        desc = dict(self.desc, **extra)
         keys_before = set(hf.cache)
         hist.append(list(op))
+        mpos = self.mpos
         try:
             if op[0] == "seek":
                 hf.seek(op[1], op[2])
@@ -198,8 +194,9 @@ def run_seq(ctx, idx):
                 data = hf.read(n)
                 exp = blob[mpos:mpos + n]
                 ok = bytes(data) == exp
+                p0 = mpos
                 ctx.check("read_bytes", ok,
-                          lambda: dict(desc, ops=hist[-12:], pos=mpos, n=n,
+                          lambda: dict(desc, ops=hist[-12:], pos=p0, n=n,
                                        expected_len=len(exp), got_len=len(data),
                                        first_diff=next((i for i, (a, b) in
                                                         enumerate(zip(data, exp)) if a != b),
@@ -207,13 +204,13 @@ def run_seq(ctx, idx):
                           message=f"read({n}) at pos {mpos} of {size} returned {len(data)} "
                                   f"bytes, expected {len(exp)} (equal={ok})")
                 if n > 0 and mpos // cs != (mpos + n - 1) // cs and mpos + n <= size:
-                    spanning += 1
+                    self.spanning += 1
                 got = hf.tell()
                 if mpos + n <= size:
-                    ctx.check("position", got == mpos + n,
-                              lambda: dict(desc, ops=hist[-12:], expected_pos=mpos + n,
+                    ctx.check("position", got == p0 + n,
+                              lambda: dict(desc, ops=hist[-12:], expected_pos=p0 + n,
                                            got_pos=got),
-                              message=f"tell()={got} after in-bounds read({n}) at {mpos}")
+                              message=f"tell()={got} after in-bounds read({n}) at {p0}")
                 else:
                     ctx.count("overread_position_not_judged")
                 mpos = got
@@ -221,18 +218,67 @@ def run_seq(ctx, idx):
             ctx.ev("no_exception")
             ctx.violation("no_exception", dict(desc, ops=hist[-12:], exc=repr(exc)),
                           message=f"{op} raised {exc!r}")
-            break
+            self.dead = True
+            return False
         else:
             ctx.ev("no_exception")
-        evictions += len(keys_before - set(hf.cache))
-    ctx.count("ops", len(hist))
+        self.mpos = mpos
+        self.evictions += len(keys_before - set(hf.cache))
+        return True
+
+
+def run_seq(ctx, idx):
+    from vmon.httpsrv import FakeSession
+    rng = ctx.rng(idx)
+    cs = int(rng.choice(CHUNKS))
+    if cs >= 4096:
+        k = int(rng.integers(0, 4))
+    else:
+        k = int(rng.integers(0, 12))
+    shape = rng.random()
+    if shape < 0.1:
+        size = 1
+    elif shape < 0.2:
+        size = max(1, int(rng.integers(1, cs + 1)) - 1) or 1
+    else:
+        size = max(1, k * cs + int(rng.integers(-1, 2)))
+    keep = int(rng.choice(KEEPS))
+    blob = rng.bytes(size)
+    url = f"http://fake.invalid/res{idx}.bin"
+    n_ops = int(rng.integers(5, 300 if ctx.tier == "thorough" else 120))
+    ops = gen_ops(rng, size, cs, n_ops)
+    ses = FakeSession({url: blob})
+    readers = [_Reader(ctx, url, blob, ses, cs, keep, ops, 0)]
+    # every third case: several file objects for the same resource live in one process, each
+    # with its own chunk size and capacity, operations interleaved (what a dataset plus the
+    # basins referring to the same URL do); each must behave as if it were alone
+    n_readers = 1
+    if idx % 3 == 2:
+        n_readers = int(rng.integers(2, 4))
+        for t in range(1, n_readers):
+            small = [c for c in CHUNKS if size / c <= 64] or [cs]
+            cs2 = int(rng.choice(small)) if rng.random() < 0.8 else cs
+            keep2 = int(rng.choice(KEEPS))
+            ops2 = gen_ops(rng, size, cs2, int(rng.integers(5, n_ops + 1)))
+            readers.append(_Reader(ctx, url, blob, ses, cs2, keep2, ops2, t))
+        ctx.count("cases_with_several_file_objects")
+    extra = {"file_objects": [(r.cs, r.keep) for r in readers]} if n_readers > 1 else {}
+    alive = list(readers)
+    while alive:
+        r = alive[int(rng.integers(0, len(alive)))] if len(alive) > 1 else alive[0]
+        if not r.step(extra):
+            alive.remove(r)
+    evictions = sum(r.evictions for r in readers)
+    spanning = sum(r.spanning for r in readers)
+    ctx.count("ops", sum(len(r.hist) for r in readers))
     ctx.count("evictions", evictions)
     ctx.count("reads_spanning_chunks", spanning)
     ctx.count("http_requests", len(ses.requests))
     if evictions and spanning:
-        ctx.mark_nontrivial(["seq", size, cs, keep, ops])
+        ctx.mark_nontrivial(["seq", size, [(r.cs, r.keep) for r in readers], ops])
     if idx % 97 == 0:
-        ctx.sample(dict(desc, kind="seq", ops=hist[:15], evictions=evictions))
+        ctx.sample(dict(readers[0].desc, kind="seq", ops=readers[0].hist[:15],
+                        evictions=evictions, file_objects=n_readers))
 
 
 def run(spec, ctx):
